@@ -289,7 +289,15 @@ def c14(hist, stats=None):
                 bad('running-vs-entered',
                     "is_running()={} but body entered={}".format(running,
                                                                  entered))
-            if bool(done) != (fin is not None):
+            # its scheduler asked for its cancellation while its body was
+            # unfinished: it must never be reported done
+            asked = [s for s, _ in h.cancel_req if s <= pseq]
+            if done and asked and not any(
+                    k in ('ret', 'exc') and s < asked[0] for s, _, k in h.exits):
+                bad('cancelled-reported-done',
+                    "cancellation was requested (seq {}) before the body "
+                    "finished, yet the job is reported done".format(asked[0]))
+            elif bool(done) != (fin is not None):
                 if done and cancelled:
                     bad('cancelled-reported-done', "cancelled job is done")
                 else:
@@ -617,6 +625,14 @@ def _abort_clauses(hist, sr, prop, t_trig, trig_seq, label, exact, out):
                     "{} in {} finished normally at t={} after the {} at t={}"
                     .format(mh.nid, sid, t, label, t_trig)))
         else:
+            if mh.is_sched:
+                cr = mh.cancel_req[0][1] if mh.cancel_req else None
+                if cr != t_trig:
+                    out.append(Violation(
+                        prop, 'cancel-not-at-trigger', site + '-nestedjob',
+                        "nested {} in {} was asked to cancel at t={} but the "
+                        "{} was at t={}".format(mh.nid, sid, cr, label,
+                                                t_trig)))
             if not mh.is_sched:
                 cs = mh.cancel_seen[0][1] if mh.cancel_seen else None
                 if cs != t_trig:
@@ -767,6 +783,15 @@ def c09(hist, stats=None):
             if _never_ends(hist, sr, 'C09', sr.fin[1], 'last completion',
                            out):
                 continue
+        if sr.verdict == 'success' and sr.mh and not sr.degenerate and (
+                sr.fin is None or sr.fin[0] > sr.over[0]):
+            left = [mh.nid for mh in sr.finite
+                    if mh.finished() is None or mh.finished()[0] > sr.over[0]]
+            out.append(Violation(
+                'C09', 'run-ends-before-last-regular-job', _site(sr),
+                "{} ended (success) at t={} while its non-forever job(s) {} "
+                "had not finished".format(sid, sr.over[1], left)))
+            continue
         if sr.verdict != 'success' or sr.fin is None or not sr.mh \
                 or sr.degenerate:
             continue
